@@ -16,6 +16,8 @@
 //	  H         length of the response head in bytes (derived; checked on replay)
 //	  [:d<ms>]  the dial error is reported / the origin answers only after ms milliseconds
 //
+//	       tseq | tpipe: the script runs INSIDE a CONNECT tunnel through the MITM-enabled proxy after a TLS handshake
+//	       (origins speak TLS); hseq | hpipe: inside such a tunnel in plain HTTP (the proxy's non-TLS branch)
 //	modes: seq | pipe through the plain proxy; mseq | mpipe through the MITM-enabled one; sseq | spipe through a plain
 //	proxy with SetTimeout(1.5 s)
 //
@@ -61,7 +63,7 @@ func (stamp) ModifyResponse(res *http.Response) error {
 	return nil
 }
 
-func proxyChild(withMITM, short bool) {
+func proxyChild(withMITM, short, longTimeout bool) {
 	mlog.SetLevel(mlog.Silent)
 	l, err := net.Listen("tcp", "127.0.0.1:0")
 	if err != nil {
@@ -111,7 +113,14 @@ func proxyChild(withMITM, short bool) {
 			os.Exit(3)
 		}
 		p.SetMITM(mc)
-		p.SetTimeout(mitmTimeout)
+		if !longTimeout {
+			p.SetTimeout(mitmTimeout)
+		}
+		// requests inside a decrypted tunnel go to the origin over TLS; the
+		// harness's origins use a throw-away certificate
+		if tr, ok := p.GetRoundTripper().(*http.Transport); ok {
+			tr.TLSClientConfig = &tls.Config{InsecureSkipVerify: true}
+		}
 	}
 	if short {
 		p.SetTimeout(shortTimeout)
@@ -139,6 +148,11 @@ type child struct {
 // two proxies under test: plain, and MITM-enabled
 var plainChild = &child{kind: "proxy-child"}
 var mitmChild = &child{kind: "proxy-child-mitm"}
+
+// MITM-enabled with the default (5 min) timeout: for the failure scripts, where
+// a short timeout would close a connection that the proxy wrongly kept open
+// and so hide exactly what is being looked for
+var mitmLongChild = &child{kind: "proxy-child-mitml"}
 
 // a plain proxy with a short per-request timeout, for connections that live
 // longer than it although no single exchange comes near it
@@ -399,6 +413,9 @@ func parseExch(t string) (*exch, error) {
 }
 
 // deadAddr is an address that refuses connections: a bound socket that never listens.
+// originTLS: the certificate of the origins behind decrypted tunnels
+var originTLS *tls.Config
+
 var deadAddr string
 
 func makeDead() {
@@ -417,7 +434,7 @@ func makeDead() {
 	l.Close()
 }
 
-func (e *exch) request(origin string) []byte {
+func (e *exch) request(origin string, inTunnel bool) []byte {
 	target := origin
 	switch e.Outcome {
 	case "ref":
@@ -439,7 +456,11 @@ func (e *exch) request(origin string) []byte {
 		v = "1.0"
 	}
 	var b bytes.Buffer
-	fmt.Fprintf(&b, "%s http://%s/r%d HTTP/%s\r\nHost: %s\r\nAccept-Encoding: identity\r\nUser-Agent: verif\r\n", m, target, e.ID, v, target)
+	if inTunnel { // origin-form inside a CONNECT tunnel
+		fmt.Fprintf(&b, "%s /r%d HTTP/%s\r\nHost: %s\r\nAccept-Encoding: identity\r\nUser-Agent: verif\r\n", m, e.ID, v, target)
+	} else {
+		fmt.Fprintf(&b, "%s http://%s/r%d HTTP/%s\r\nHost: %s\r\nAccept-Encoding: identity\r\nUser-Agent: verif\r\n", m, target, e.ID, v, target)
+	}
 	switch {
 	case e.RC && !e.V10:
 		b.WriteString("Connection: close\r\n")
@@ -508,8 +529,13 @@ func fmtResp(m *p1x.Msg) string {
 func runUF(in []string) (out []string) {
 	mode := in[1]
 	ch := plainChild
-	if strings.HasPrefix(mode, "m") { // mseq / mpipe: through the MITM-enabled proxy
-		ch, mode = mitmChild, mode[1:]
+	// carrier of the script: the client connection itself, or a CONNECT tunnel
+	// through the MITM-enabled proxy - decrypted TLS ("t") or plain HTTP ("h")
+	carrier := ""
+	if strings.HasPrefix(mode, "t") || strings.HasPrefix(mode, "h") {
+		carrier, ch, mode = mode[:1], mitmLongChild, mode[1:]
+	} else if strings.HasPrefix(mode, "m") { // mseq / mpipe: through the MITM-enabled proxy
+		ch, mode = mitmLongChild, mode[1:]
 	} else if mode == "sseq" || mode == "spipe" { // through the proxy with the short timeout
 		ch, mode = shortChild, mode[1:]
 	}
@@ -568,6 +594,9 @@ func runUF(in []string) (out []string) {
 			return nil
 		}
 		o.SetHandler(handler)
+		if carrier == "t" {
+			o.TLS = originTLS
+		}
 		origins = append(origins, o)
 		return o
 	}
@@ -592,8 +621,25 @@ func runUF(in []string) (out []string) {
 		}
 		return []string{"ENV:dial"}
 	}
-	defer conn.Close()
+	defer func() { conn.Close() }()
 	br := bufio.NewReaderSize(conn, 64*1024)
+	if carrier != "" {
+		// set the tunnel up: CONNECT, 200, and for "t" a TLS handshake with the proxy
+		conn.SetDeadline(time.Now().Add(idleNow()))
+		fmt.Fprintf(conn, "CONNECT %s HTTP/1.1\r\nHost: %s\r\n\r\n", originOf[0].Addr, originOf[0].Addr)
+		m := p1x.ReadResponse(br, "CONNECT", true)
+		if m == nil || m.Status != 200 {
+			return []string{"TUNNEL-SETUP-FAILED"}
+		}
+		if carrier == "t" {
+			tc := tls.Client(&bufConn{Conn: conn, r: br}, &tls.Config{InsecureSkipVerify: true, ServerName: "verif.invalid"})
+			if err := tc.Handshake(); err != nil {
+				return []string{"TUNNEL-SETUP-FAILED:tls"}
+			}
+			conn = tc
+			br = bufio.NewReaderSize(tc, 64*1024)
+		}
+	}
 	end := ""
 	record := func(m *p1x.Msg) bool {
 		if m == nil {
@@ -637,7 +683,7 @@ func runUF(in []string) (out []string) {
 	if mode == "pipe" {
 		var all bytes.Buffer
 		for i, e := range exs {
-			all.Write(e.request(originOf[i].Addr))
+			all.Write(e.request(originOf[i].Addr, carrier != ""))
 		}
 		go conn.Write(all.Bytes())
 		for _, e := range exs {
@@ -654,7 +700,7 @@ func runUF(in []string) (out []string) {
 	} else {
 		for i, e := range exs {
 			conn.SetWriteDeadline(time.Now().Add(30 * time.Second))
-			conn.Write(e.request(originOf[i].Addr))
+			conn.Write(e.request(originOf[i].Addr, carrier != ""))
 			conn.SetReadDeadline(time.Now().Add(idleNow()))
 			m := p1x.ReadResponse(br, methodName(e.Meth), true)
 			if !record(m) {
@@ -668,7 +714,11 @@ func runUF(in []string) (out []string) {
 	}
 	if end == "" {
 		conn.SetDeadline(time.Now().Add(idleNow()))
-		fmt.Fprintf(conn, "GET http://%s%s HTTP/1.1\r\nHost: %s\r\nAccept-Encoding: identity\r\nConnection: close\r\n\r\n", origin.Addr, sentinel, origin.Addr)
+		if carrier != "" {
+			fmt.Fprintf(conn, "GET %s HTTP/1.1\r\nHost: %s\r\nAccept-Encoding: identity\r\nConnection: close\r\n\r\n", sentinel, origin.Addr)
+		} else {
+			fmt.Fprintf(conn, "GET http://%s%s HTTP/1.1\r\nHost: %s\r\nAccept-Encoding: identity\r\nConnection: close\r\n\r\n", origin.Addr, sentinel, origin.Addr)
+		}
 		m := p1x.ReadResponse(br, "GET", true)
 		switch {
 		case m == nil:
@@ -936,13 +986,20 @@ func main() {
 	mlog.SetLevel(mlog.Silent)
 	for i, a := range os.Args {
 		if a == "-extra" && i+1 < len(os.Args) && strings.HasPrefix(os.Args[i+1], "proxy-child") {
-			proxyChild(os.Args[i+1] == "proxy-child-mitm", os.Args[i+1] == "proxy-child-short")
+			k := os.Args[i+1]
+			proxyChild(k == "proxy-child-mitm" || k == "proxy-child-mitml", k == "proxy-child-short", k == "proxy-child-mitml")
 			return
 		}
 	}
 	cfg := hx.ParseFlags()
 	defer cfg.Close()
 	makeDead()
+	if c, err := p1x.SelfSigned(); err == nil {
+		originTLS = c
+	} else {
+		fmt.Fprintln(os.Stderr, "cannot make an origin certificate:", err)
+		os.Exit(2)
+	}
 	if cfg.Extra == "mkcorpus" {
 		for _, c := range corpus() {
 			cfg.Emit(c)
@@ -952,6 +1009,7 @@ func main() {
 	defer plainChild.stop()
 	defer mitmChild.stop()
 	defer shortChild.stop()
+	defer mitmLongChild.stop()
 	var cases []hx.Case
 	pre, replayOnly := cfg.Inputs()
 	cases = append(cases, pre...)
@@ -999,6 +1057,7 @@ func main() {
 			time.Sleep(100 * time.Millisecond)
 			plainChild.get()
 			mitmChild.get()
+			mitmLongChild.get()
 			outs[i] = runRobust(cases[i].In)
 			if isDead(i) {
 				culprit[i] = true
@@ -1014,6 +1073,7 @@ func main() {
 		}
 		plainChild.get()
 		mitmChild.get()
+		mitmLongChild.get()
 		runParallel(rest)
 	}
 	for i, c := range cases {
